@@ -336,6 +336,9 @@ func init() {
 				{"shared-explicit", Service{Constructor: P("pk.New"), Type: P("*pk.Obj"), Scope: P("shared")}, false},
 				{"shared-explicit-untyped", Service{Constructor: P("pk.New"), Scope: P("shared"), Args: []any{"@helper"}}, false},
 				{"contextual", Service{Constructor: P("pk.New"), Type: P("*pk.Obj"), Scope: P("contextual")}, false},
+				{"inferred-contextual", Service{Constructor: P("pk.New"), Type: P("*pk.Obj"), Args: []any{"@ctxDep"}}, false},
+				{"inferred-contextual-untyped", Service{Constructor: P("pk.New"), Fields: []KV{{"F1", "@ctxDep"}}}, false},
+				{"inferred-contextual-by-decorator", Service{Constructor: P("pk.New"), Tags: []Tag{{Name: "ctag"}}}, false},
 				{"nonshared", Service{Constructor: P("pk.NewVal"), Type: P("pk.Val"), Scope: P("non_shared")}, false},
 				{"failing", Service{Constructor: P("pk.NewE"), Args: []any{"fail"}, Type: P("*pk.Obj")}, true},
 				{"failing-value-type", Service{Constructor: P("pk.NewE"), Args: []any{"fail"}, Type: P("pk.Val")}, true},
@@ -353,9 +356,9 @@ func init() {
 					if dm == 0 {
 						s.MustGetter = P(true)
 					}
-					cfg.Services = []Service{s, {Name: "helper", Constructor: P("pk2.New")}, {Name: "todoSvc", Todo: P(true)}}
-					cfg.Decorators = []Decorator{{Tag: "dtag", Decorator: "pk.Dec1"}}
-					ops := []ProbeOp{op("get", "sut"), op("getter", "FetchSut"), opCtx("getterctx", "A", "FetchSutInContext"), op("mustgetter", "MustFetchSut"), opCtx("mustgetterctx", "A", "MustFetchSutInContext"), opCtx("getterctx", "B", "FetchSutInContext"), op("getter", "FetchSut")}
+					cfg.Services = []Service{s, {Name: "helper", Constructor: P("pk2.New")}, {Name: "todoSvc", Todo: P(true)}, {Name: "ctxDep", Constructor: P("pk.New1"), Scope: P("contextual")}}
+					cfg.Decorators = []Decorator{{Tag: "dtag", Decorator: "pk.Dec1"}, {Tag: "ctag", Decorator: "pk2.Dec2", Args: []any{"@ctxDep"}}}
+					ops := []ProbeOp{op("get", "sut"), op("getter", "FetchSut"), opCtx("getterctx", "A", "FetchSutInContext"), opCtx("getctx", "A", "sut"), op("mustgetter", "MustFetchSut"), opCtx("mustgetterctx", "A", "MustFetchSutInContext"), opCtx("getterctx", "B", "FetchSutInContext"), opCtx("getctx", "B", "sut"), opCtx("getctx", "A", "ctxDep"), op("getter", "FetchSut")}
 					sessions := []BSession{{Ops: ops}}
 					switch d.id {
 					case "untyped", "ptr", "iface", "shared-explicit", "shared-explicit-untyped", "contextual", "decorated-untyped":
